@@ -10,9 +10,13 @@ import (
 )
 
 // mtimes used by the harnesses (ns); arithmetic on them stays concrete
-var vh_mtimeChoices = []int64{1500000000123, 0} // a sub-second value and the epoch itself (a zero field is absent on the wire)
+// MT=0: a sub-second value and the epoch itself (a zero field is absent on the wire);
+// MT=1: a pre-epoch instant with a sub-second part (seconds round towards minus infinity) and the last nanosecond of a second
+var vh_mtimeSets = [][]int64{{1500000000123, 0}, {-1250000000, 1999999999}}
 
-func vh_chooseMtime(name string) int64 { return vh_mtimeChoices[v.Choose(name, len(vh_mtimeChoices))] }
+func vh_mtimes() []int64 { return vh_mtimeSets[v.Param("MT", 0)] }
+
+func vh_chooseMtime(name string) int64 { return vh_mtimes()[v.Choose(name, len(vh_mtimes()))] }
 
 const vh_permMask = 0777 | uint32(os.ModeSetuid) | uint32(os.ModeSetgid) | uint32(os.ModeSticky)
 
